@@ -19,9 +19,13 @@ pub enum InputClass {
     PadLike,
     Zeros,
     Ones,
+    /// digits with one foreign character near the end: forced Numeric panics mid-encode
+    DigitsThenForeign,
+    /// alphanumeric with one lowercase character near the end: forced Alphanumeric panics mid-encode
+    AlnumThenForeign,
 }
 
-pub const INPUT_CLASSES: [InputClass; 7] = [
+pub const INPUT_CLASSES: [InputClass; 9] = [
     InputClass::Digits,
     InputClass::Alnum,
     InputClass::Bytes,
@@ -29,6 +33,8 @@ pub const INPUT_CLASSES: [InputClass; 7] = [
     InputClass::PadLike,
     InputClass::Zeros,
     InputClass::Ones,
+    InputClass::DigitsThenForeign,
+    InputClass::AlnumThenForeign,
 ];
 
 pub fn gen_input_of(rng: &mut Rng, class: InputClass, len: usize) -> Vec<u8> {
@@ -51,8 +57,16 @@ pub fn gen_input_of(rng: &mut Rng, class: InputClass, len: usize) -> Vec<u8> {
             }
             InputClass::Zeros => 0,
             InputClass::Ones => 0xFF,
+            InputClass::DigitsThenForeign => b'0' + rng.below(10) as u8,
+            InputClass::AlnumThenForeign => ALNUM[rng.usize_below(ALNUM.len())],
         };
         v.push(b);
+    }
+    if matches!(class, InputClass::DigitsThenForeign | InputClass::AlnumThenForeign) && len > 0 {
+        // the foreign character sits in the last few positions, so that most of the
+        // segment has already been pushed when the documented panic is raised
+        let pos = len - 1 - rng.usize_below(len.min(4));
+        v[pos] = *rng.pick(&[b'x', b'q', b'~', b'a']);
     }
     v
 }
@@ -72,7 +86,7 @@ pub fn gen_len(rng: &mut Rng, max_len: usize) -> usize {
 }
 
 pub fn gen_input(rng: &mut Rng, max_len: usize) -> Vec<u8> {
-    let class = INPUT_CLASSES[rng.weighted(&[20, 20, 25, 20, 5, 5, 5])];
+    let class = INPUT_CLASSES[rng.weighted(&[18, 18, 22, 18, 4, 4, 4, 6, 6])];
     let len = gen_len(rng, max_len);
     gen_input_of(rng, class, len)
 }
